@@ -105,19 +105,54 @@ func c09Fresh() *MultiEpoch {
 	if vkit.Thorough() {
 		conc = 2
 	}
+	// set up through the public API only (an implementation may keep derived state next to the map)
 	m := NewMultiEpoch(&Options{EpochSearchConcurrency: conc})
-	m.epochs[1] = c09LightEpoch(1, "")
-	m.epochs[3] = c09LightEpoch(3, "")
+	if err := m.AddEpoch(1, c09LightEpoch(1, "")); err != nil {
+		panic(err)
+	}
+	if err := m.AddEpoch(3, c09LightEpoch(3, "")); err != nil {
+		panic(err)
+	}
 	return m
 }
 
+// c09Final observes the final epoch set through the public accessors: the listing, and the
+// epoch object behind every listed number.
 func c09Final(m *MultiEpoch) string {
-	var parts []string
-	for n, e := range m.epochs {
+	nums := m.GetEpochNumbers()
+	parts := []string{fmt.Sprintf("list=%v count=%d", nums, m.CountEpochs())}
+	for _, n := range nums {
+		e, err := m.GetEpoch(n)
+		if err != nil {
+			parts = append(parts, fmt.Sprintf("%d=<listed but not loaded>", n))
+			continue
+		}
 		parts = append(parts, fmt.Sprintf("%d=%s", n, c09EpochName(e)))
 	}
-	sort.Strings(parts)
 	return strings.Join(parts, ",")
+}
+
+// c09FinalProblem checks the final listing on its own: strictly descending, every listed epoch loaded,
+// count consistent (the statement's "duplicate-free and sorted newest first").
+func c09FinalProblem(final string) string {
+	i := strings.Index(final, "list=[")
+	j := strings.Index(final, "] count=")
+	if i < 0 || j < 0 {
+		return ""
+	}
+	list := "[" + final[i+6:j] + "]"
+	if !c09StrictlyDescending(list) {
+		return "final epoch listing not strictly descending: " + list
+	}
+	if strings.Contains(final, "<listed but not loaded>") {
+		return "an epoch is listed but cannot be fetched: " + final
+	}
+	var cnt int
+	fmt.Sscanf(final[j+len("] count="):], "%d", &cnt)
+	if n := len(strings.Fields(strings.Trim(list, "[]"))); n != cnt {
+		return fmt.Sprintf("listing has %d entries but CountEpochs says %d", n, cnt)
+	}
+	return ""
 }
 
 type c09Scenario struct {
@@ -212,8 +247,12 @@ func (sc c09Scenario) run(c *explore.Ctx, ops []c09Op, seq map[string]bool) expl
 	case s.HorizonHit:
 		res.Outcome = "horizon"
 	default:
-		got := strings.Join(obs, " | ") + " || " + c09Final(m)
+		final := c09Final(m)
+		got := strings.Join(obs, " | ") + " || " + final
 		res.Outcome = got
+		if p := c09FinalProblem(final); p != "" {
+			bad("inconsistent-epoch-set", p)
+		}
 		for t, o := range sc.Ops {
 			if ops[o].Name == "GetEpochNumbers" && !c09StrictlyDescending(obs[t]) {
 				bad("unsorted-listing", "epoch listing not strictly descending: "+obs[t])
